@@ -271,7 +271,7 @@ static std::string render_lp(const LP &m, long style) {
 	s += up ? "BOUNDS\n" : "Bounds\n";
 	for (size_t jj = 0; jj < m.cols.size(); jj++) { const MCol &c = m.cols[jj]; bool marked_int = style % 4 == 1 && (jj + (size_t)(style / 4)) % 3 == 0;
 		if (!c.lo.fin() && !c.up.fin()) s += " " + c.name + " free\n"; else if (c.lo.fin() && c.up.fin() && c.lo.v == c.up.v) s += " " + c.name + " = " + lit(c.lo.v, style) + "\n";
-		else { bool deflo = c.lo.fin() && c.lo.v == 0, defup = !c.up.fin() && c.up.inf > 0; if (deflo && defup && !(marked_int && style % 8 == 1)) continue;   /* an integer column without bounds would be read as binary: say [0,+inf) explicitly */ s += " " + (c.lo.fin() ? lit(c.lo.v, style) : std::string("-inf")) + " <= " + c.name + " <= " + (c.up.fin() ? lit(c.up.v, style) : std::string("+inf")) + "\n"; } }
+		else { bool deflo = c.lo.fin() && c.lo.v == 0, defup = !c.up.fin() && c.up.inf > 0; if (deflo && defup && !marked_int) continue;   /* an integer column without bounds would be read as binary: say [0,+inf) explicitly */ s += " " + (c.lo.fin() ? lit(c.lo.v, style) : std::string("-inf")) + " <= " + c.name + " <= " + (c.up.fin() ? lit(c.up.v, style) : std::string("+inf")) + "\n"; } }
 	if (style % 4 == 1 && !m.cols.empty()) {   // an integer section: only files can mark columns integer
 		std::string sec; for (size_t j = 0; j < m.cols.size(); j++) if ((j + (size_t)(style / 4)) % 3 == 0) sec += " " + m.cols[j].name;
 		if (!sec.empty()) s += std::string(style % 8 == 1 ? "Integer\n" : "General\n") + sec + "\n"; }
@@ -296,12 +296,12 @@ static std::string render_mps(const LP &m, long style) {
 		if (sos && j == sos_b) s += sos_tag + "'SOSEND'\n";
 		if (sos && j == sos_a) { s += sos_tag + "'SOSORG'\n"; if (sos_dropped) s += " zdrop2 zfree 1\n"; }
 		bool want_int = ints && (j + (size_t)(style / 4)) % 3 == 0;
-		if (want_int != in_int) { s += std::string(" MARKER MARKER ") + (want_int ? "'INTORG'" : "'INTEND'") + "\n"; in_int = want_int; }
+		if (want_int != in_int) { s += std::string(" MARKER 'MARKER' ") + (want_int ? "'INTORG'" : "'INTEND'") + "\n"; in_int = want_int; }
 		if (style % 11 == 5 && j + 1 == m.cols.size()) for (auto &r : m.rows) { auto it = r.coef.find((int)j); if (it != r.coef.end() && it->second != 0) { s += " " + c.name + " " + r.name + " 1\n"; break; } }   // the same entry twice
 		if (c.obj != 0) { s += " " + c.name + " obj " + lit(c.obj, style) + "\n"; any = true; }
 		for (auto &r : m.rows) { auto it = r.coef.find((int)j); if (it != r.coef.end() && it->second != 0) { s += " " + c.name + " " + r.name + " " + lit(it->second, style + (long)j) + "\n"; any = true; } }
 		if (!any) s += " " + c.name + " obj 0\n"; }
-	if (in_int) s += " MARKER MARKER 'INTEND'\n";
+	if (in_int) s += " MARKER 'MARKER' 'INTEND'\n";
 	if (sos && sos_b >= m.cols.size()) s += sos_tag + "'SOSEND'\n";
 	s += "RHS\n"; for (size_t i = 0; i < m.rows.size(); i++) { const MRow &r = m.rows[i]; Q rhs = r.rhs; if (r.sense == 'R') { int f = rform(i); if (f == 1 || f == 2 || f == 4) rhs = r.rhs + r.range; } if (rhs != 0) s += " RHS " + r.name + " " + lit(rhs, style) + "\n"; }
 	bool anyr = false; for (auto &r : m.rows) if (r.sense == 'R') anyr = true;
@@ -309,7 +309,7 @@ static std::string render_mps(const LP &m, long style) {
 	s += "BOUNDS\n";
 	for (size_t jj = 0; jj < m.cols.size(); jj++) { const MCol &c = m.cols[jj]; bool marked_int = ints && (jj + (size_t)(style / 4)) % 3 == 0;
 		if (!c.lo.fin() && !c.up.fin()) s += " FR BND " + c.name + "\n"; else if (c.lo.fin() && c.up.fin() && c.lo.v == c.up.v) s += " FX BND " + c.name + " " + lit(c.lo.v, style) + "\n";
-		else if (marked_int && style % 8 == 1 && c.lo.fin() && c.lo.v == 0 && !c.up.fin()) s += " PL BND " + c.name + "\n";   // integer with [0,+inf): without a bound record it would be read as binary
+		else if (marked_int && c.lo.fin() && c.lo.v == 0 && !c.up.fin()) s += " PL BND " + c.name + "\n";   // integer with [0,+inf): without a bound record it would be read as binary
 		else { if (!c.lo.fin()) s += " MI BND " + c.name + "\n"; else if (c.lo.v != 0) s += " LO BND " + c.name + " " + lit(c.lo.v, style) + "\n"; if (c.up.fin()) s += " UP BND " + c.name + " " + lit(c.up.v, style) + "\n"; } }
 	s += "ENDATA\n"; return s;
 }
@@ -320,6 +320,15 @@ void Exec::op_foreign(Client &c) {
 	if (!lp) lp = get_lp(op->i("lp"));
 	if (!lp) { T("  skip"); return; }
 	std::string fmt = op->s("fmt", "LP") == "MPS" ? "MPS" : "LP"; std::string path = io_path(op, fmt == "LP" ? ".lp" : ".mps");
+	// another producer's names: MPS takes any blank-free text, so a few columns (the integer ones first) get names no LP file could spell
+	LP renamed; long bn = op->i("badnames", 0);
+	if (bn > 0 && fmt == "MPS" && !lp->cols.empty()) {
+		renamed = *lp; static const char *bad[] = {"x[1]", "x[2]", "2nd", "y[1,2]", "a+b", "q*r", "7up", "r<1>", "c=d", "x(3)]", "x^2", "n:5"};   /* no name that reads as a number: free-format MPS tells names from values by their looks */ long st = op->i("style", 0); size_t nc = renamed.cols.size();
+		std::vector<size_t> order; for (size_t j = 0; j < nc; j++) if (st % 4 == 1 && (j + (size_t)(st / 4)) % 3 == 0) order.push_back(j); for (size_t j = 0; j < nc; j++) if (!(st % 4 == 1 && (j + (size_t)(st / 4)) % 3 == 0)) order.push_back(j);
+		int k = 1 + (int)(bn % 3);
+		for (int t = 0; t < k && t < (int)order.size(); t++) { std::string nm = bad[(bn + 5 * t) % 12]; bool used = false; for (auto &cc : renamed.cols) if (cc.name == nm) used = true; for (auto &rr : renamed.rows) if (rr.name == nm) used = true; if (!used) renamed.cols[order[t]].name = nm; }
+		lp = &renamed; probe("foreign.names_needing_repair");
+	}
 	std::string text = fmt == "LP" ? render_lp(*lp, op->i("style", 0)) : render_mps(*lp, op->i("style", 0));
 	// a producer with a bug of its own: files whose lines are all well formed but whose structure is not (sections twice, with new
 	// names the later sections then use; references to names nobody declared; records out of place)
@@ -341,7 +350,7 @@ void Exec::op_foreign(Client &c) {
 		case 4: if (ins_before("BOUNDS\n", " RHS no_such_row 3\n")) malwhat = "rhs for an undeclared row"; break;
 		case 5: if (ins_before("RHS\n", " " + c0 + " " + r0 + " 17\n")) malwhat = "a column continued after other columns"; break;
 		case 6: if (ins_before("COLUMNS\n", "RHS\n RHS " + r0 + " 1\n")) malwhat = "RHS section before COLUMNS"; break;
-		case 7: if (ins_before("RHS\n", " MARKER MARKER 'INTORG'\n zi1 obj 1\n S1 SOS 'MARKER' 'SOSORG'\n zi2 " + r0 + " 1\n")) malwhat = "integer and SOS markers left open"; break;
+		case 7: if (ins_before("RHS\n", " MARKER 'MARKER' 'INTORG'\n zi1 obj 1\n S1 SOS 'MARKER' 'SOSORG'\n zi2 " + r0 + " 1\n")) malwhat = "integer and SOS markers left open"; break;
 		case 8: if (ins_before("ENDATA", " XX BND " + c0 + " 1\n BV BND\n FR\n")) malwhat = "unknown and truncated bound records"; break;
 		case 9: if ((mal / 14) % 2 == 0) { if (ins_before("ROWS\n", "OBJSENSE\nOBJNAME\n no_such_obj\nREFROW\n " + r0 + "\n")) malwhat = "empty OBJSENSE, unknown OBJNAME, REFROW"; }
 			else if (ins_before("ROWS\n", "REFROW\n no_such_row\n")) malwhat = "REFROW naming an undeclared row"; break;
